@@ -63,7 +63,7 @@ class Layout:
     def __init__(self, seed=None, p_break=0.0, p_ws=0.0, p_comment=0.0, p_semi=0.0,
                  p_blank=0.0, p_hex=0.0, p_under=0.0, p_paren=0.0, break_after=None,
                  crlf=False, compact=False, lead=None, comment_texts=None,
-                 multiline_strings=False, indent=True):
+                 multiline_strings=False, indent=True, p_trail=0.0, p_semis=0.0):
         self.rng = random.Random(seed)
         self.p_break = p_break
         self.p_ws = p_ws
@@ -80,6 +80,8 @@ class Layout:
         self.comment_texts = comment_texts or COMMENT_TEXTS
         self.multiline_strings = multiline_strings
         self.indent = indent
+        self.p_semis = p_semis      # extra `;` after a statement terminator (empty statements are swallowed by the lexer)
+        self.p_trail = p_trail      # trailing comma after the last item of a list / argument list / parameter list / object literal (where the grammar allows one)
 
     @staticmethod
     def random(seed, strength=1.0):
@@ -90,7 +92,8 @@ class Layout:
                       p_semi=r.choice([0, 0.3, 1.0]), p_blank=r.choice([0, 0.3]) * k,
                       p_hex=r.choice([0, 0.3]) * k, p_under=r.choice([0, 0.5]) * k,
                       p_paren=r.choice([0, 0, 0.15]) * k, crlf=r.random() < 0.15 * k,
-                      compact=r.random() < 0.3, multiline_strings=r.random() < 0.3 * k)
+                      compact=r.random() < 0.3, multiline_strings=r.random() < 0.3 * k,
+                      p_trail=r.choice([0, 0, 0.5]) * k, p_semis=r.choice([0, 0, 0.3]) * k)
 
 
 COMMENT_TEXTS = ["", " plain", " é✓😀 \"quoted\" $x ${y}", "# ## }{)(", " x := 1; print(x)",
@@ -98,7 +101,7 @@ COMMENT_TEXTS = ["", " plain", " é✓😀 \"quoted\" $x ${y}", "# ## }{)(", " x
 
 
 class Tok:
-    __slots__ = ("text", "kind", "val", "glue_l", "glue_r", "line", "col", "block_open", "offset")
+    __slots__ = ("text", "kind", "val", "glue_l", "glue_r", "line", "col", "block_open", "offset", "optional")
 
     def __init__(self, text, kind, val="", glue_l=False, glue_r=False):
         self.text = text
@@ -109,6 +112,7 @@ class Tok:
         self.line = self.col = None
         self.block_open = False
         self.offset = None
+        self.optional = False      # a token only this layout writes (trailing comma): not part of the layout-independent token sequence
 
 
 class Term:
@@ -171,7 +175,14 @@ class _Emitter:
             if collect and i == len(params) - 1:
                 self.tok("..", gr=True)
             self.expr(p, 1)
+        if params and not collect:
+            self.trail()
         self.tok(")", gl=True)
+
+    def trail(self):
+        lay = self.lay
+        if not self.inline and getattr(lay, "p_trail", 0) and lay.rng.random() < lay.p_trail:
+            self.items[self.tok(",", gl=True)].optional = True
 
     def stmt(self, s):
         if id(s) in self.start:
@@ -302,6 +313,8 @@ class _Emitter:
                 self.expr(it, 1)
                 if spread:
                     self.tok("..", gl=True)
+            if e.items and not e.collect:
+                self.trail()
             self.tok("]", gl=True)
         elif isinstance(e, A.ObjectE):
             self.tok("{", gr=True)
@@ -318,6 +331,8 @@ class _Emitter:
                     self.expr(p.e, 1)
                     if p.spread:
                         self.tok("..", gl=True)
+            if e.props:
+                self.trail()
             self.tok("}", gl=True)
         elif isinstance(e, A.Index):
             self.expr(e.e, 5)
@@ -350,6 +365,8 @@ class _Emitter:
                 self.expr(a, 1)
                 if spread:
                     self.tok("..", gl=True)
+            if e.args:
+                self.trail()
             self.tok(")", gl=True)
         else:
             raise TypeError(e)
@@ -553,6 +570,12 @@ def layout_items(em, lay):
                     write("    " * max(d, 0))
                 elif lay.p_ws and rng.random() < lay.p_ws:
                     write(rng.choice([" ", "\t", "  "]))
+            if lay.p_semis and rng.random() < lay.p_semis:
+                # a run of empty statements: no token results (a terminator after a terminator is swallowed)
+                for _ in range(rng.choice([1, 1, 2, 3])):
+                    write(";")
+                    if rng.random() < 0.4:
+                        write(rng.choice([" ", "  ", "\t"]))
             prev = None
             continue
         # separator before this token
